@@ -85,6 +85,8 @@ fn main() {
         "rta" => drivers::rta::run_rta(&mut ctx),
         "search" => drivers::rta::run_search(&mut ctx),
         "systems" => drivers::systems::run(&mut ctx),
+        "agree" => drivers::agree::run(&mut ctx),
+        "harden" => drivers::harden::run(&mut ctx),
         "demand" => drivers::cost::run_demand(&mut ctx),
         d => {
             eprintln!("unknown driver {}", d);
